@@ -295,7 +295,8 @@ class MerchantEngine:
                             depth += 1
                             current.append(char)
                         elif char == ')':
-                            depth -= 1
+                            # a stray ) closes nothing: it must not keep every later comma from splitting
+                            depth = max(depth - 1, 0)
                             current.append(char)
                         elif char == ',' and depth == 0 and braces == 0:
                             tag = ''.join(current).strip()
